@@ -19,6 +19,21 @@ var MutatingPrograms = []string{
 	"[[1,2]] | .[0] as $x | ($x | .[0] = 9), $x", "{\"a\":[1,2]} | [.a, (.a |= reverse)]", "[1,2,3][1:] | .[0] = 0", "[[1,2,3][1:], [1,2,3][:2]] | add", "min_by(.a?)", "[.[]? | tojson | fromjson]", "tostream", "[tostream] | fromstream(.[])", "path(..)", "[splits(\"a\")]?", "ltrimstr(\"a\")", "ascii_downcase?", "@json", "[.[] | numbers] | add",
 	"{a: .a, b: .a} | .a[0] = 1", "[., .] | .[0][0] = 1", "[., .] | .[0] |= del(.[0])", "{x: .} | .x.a = 1", "[.] | flatten(1) | .[0] = 1", "(.a // .) | .[0] = 1", "[.[]?][:2] | .[0] = 1", "(.[:2] | .[0] = 1), .", "(.a |= sort), .a",
 	"(.a |= reverse), (.a |= .[1:])", "(del(.a[0])), .a, (.a += [1])", "[(.a, .a) |= . + [1]]", "(.[1:] = [1]), (.[:1] = [2]), .", "[.[]? += 1]?", "(.[0] |= empty), .", "[.. | arrays | .[:1]]", "[.. | arrays] | map(. + [1])",
+	// flatten with a small depth (the accumulator must never be one of the operands)
+	"flatten(1)", "flatten(2)", "flatten(0)", "[.[0]?, $v] | flatten(1)", "[.a?, .c?] | flatten(1)", "(flatten(1) | length), .[0]?", "[.[]?] | flatten(1)", "[., $v] | flatten(1)", "[.[0]?, [9]] | flatten(1)", "[.[:1][]?, 9] | flatten(1)",
+	"[.a?, [8], [9]] | flatten(1)", "[$v, [8]] | flatten(1), $v", "[.[]?, [7]] | (flatten(1), flatten(2)) | length", "[[], ., [1]] | flatten(1)", "[.[0]?, .[0]?] | flatten(1)", "([.[0]?, [5]] | flatten(1)), ([.[0]?, [6]] | flatten(1))",
+	// slice paths whose bounds are not Go ints, as constants, variables and parts of the input
+	".[0.5:1.5] |= map(.)", ".[0.5:1.5] = [9]", "del(.[0.5:1.5])", "path(.[0.5:1.5]), (.[0.5:1.5] |= .)", "def p: .[0.5:1.5]; path(p), (p |= .)", "def p: .[1.2:]; [path(p)], (p = [1]), [path(p)]", "(.[:1.5] |= .), path(.[:1.5])",
+	"{\"start\":0.5,\"end\":1.5} as $s | (.[$s]? |= .), $s", "{\"start\":0.5,\"end\":1.5} as $s | [1,2,3] | (.[$s] |= .), $s", "{\"start\":0.5,\"end\":2.5} as $s | [1,2,3] | delpaths([[$s]]), $s", "{\"start\":1.5,\"end\":null} as $s | [1,2,3] | (.[$s] = [0]), $s",
+	"[{\"start\":0.5,\"end\":1.5}] as $p | [1,2,3] | (delpaths([$p]), $p)", "[{\"start\":0.5,\"end\":1.5}] as $p | [1,2,3] | (setpath($p; [9]), getpath($p), $p)", "(.[$v]? |= .), $v", "(try (.[$v] = [1]) catch \"e\"), $v", "(try delpaths([[$v]]) catch \"e\"), $v",
+	"(try del(.[$v]) catch \"e\"), $v", "[1,2,3] | (try (.[$v] |= .) catch \"e\"), $v", "[1,2,3] | (try delpaths([[$v]]) catch \"e\")", ". as $p | [1,2,3] | (try delpaths([[$p]]) catch \"e\"), $p", ". as $p | [1,2,3] | (try (.[$p] |= map(. + 1)) catch \"e\"), $p",
+	". as $p | [1,2,3] | (try (to_entries | .[$p] = []) catch \"e\")", "[1,2,3,4] | (.[1.5:2.5] |= [9]), (.[1.5:2.5] |= [8])", "[paths(type == \"number\")] as $ps | .[0.5:1.5] |= ., $ps",
+	// constructed (possibly empty) arrays navigated in path context: the verdict
+	// must not depend on where an empty array happens to live in memory
+	"try ([.[]?][]?.a = 1) catch \"invalid\"", "try path([.[]?][]) catch \"invalid\"", "try ([.[]?][0] = 1) catch \"invalid\"", "try path(.[:0] | .[]) catch \"invalid\"", "try path(.a[1:1]?[]?) catch \"invalid\"",
+	"[.[]? | try path([.[]?][]) catch \"invalid\"]", "try path(map(.)? | .[]) catch \"invalid\"", "try path((. + [])? | .[]) catch \"invalid\"", "[.. | arrays | try path([.[]][]) catch \"invalid\"]", "[.. | arrays | try path(.[:0][]) catch \"invalid\"]",
+	"try path([] | .[]) catch \"invalid\"", "try path(.a? | [.[]?] | .[]) catch \"invalid\"", "[.[]?] as $c | try path($c | .[]) catch \"invalid\"", "try ([.[]?] | .[] |= 1) catch \"invalid\"", "try (del([.[]?][])) catch \"invalid\"",
+	"try path(.[0:0]?[0]) catch \"invalid\"", "try path([.[]?][:0][]) catch \"invalid\"", "try path(($v | arrays | .[:0]) | .[]) catch \"invalid\"", "try path($v | [.[]?][]) catch \"invalid\"", "[paths(arrays)] | length",
 	// accumulators that start empty and may adopt one of their operands
 	"[{}, {\"a\":1}, .] | add", ".[1]?, add?, .[1]?", "[[], .[0]?, [1]] | add", "[{}, .[]?] | add?", "[null, {}, .[]?] | add?", "reduce .[]? as $x ({}; . + $x)?", "[{}, {a:1}, {b:2}] | (.[1], add, .[1])",
 	"({} + . + {z:1})?", "([] + . + [1])?", "[{}, .] | add? | .zz? = 1", "[.[]?] | add? | (.zz = 1)?", "[[], .[]?] | add? | (.[0] = 1)?", "({} * .)?", "[{}, $v[2]?, {b:2}] | add?", "[[], $v, [1]] | add?",
